@@ -3,7 +3,7 @@
 # 1. confirms in the scratch worktree: demo PASS without patch, FAIL with patch, test suite passes with patch
 # 2. applies the patch to /repo, runs ./check <PID> (quick), reverts /repo
 PID=$1; WT=$2; SD=$3; shift 3
-OUT=/verif/seeded/$(basename $WT | sed 's/wt-//')-$(basename $SD)
+OUT=${SEED_OUT:-/verif/seeded/$(basename $WT | sed 's/wt-//')-$(basename $SD)}
 mkdir -p $OUT; cp $SD/patch.diff $SD/demo.c $SD/README.txt $OUT/ 2>/dev/null
 LOG=$OUT/eval.log; : > $LOG
 cd $WT || exit 2
